@@ -373,6 +373,8 @@ def c13(tier):
                                   params=dict(mode="corrupt", template=tn, part=part, nparts=8)))
     cases += mk("http", 300 if q else 6000, s + 1, "default", mode="mutate", count=60)
     cases += mk("http", 60 if q else 1000, s + 2, "smallbuf", mode="mutate", count=60)
+    cases += mk("http", 40 if q else 1000, s + 3, "default", lane="msan", mode="mutate", count=60)
+    cases += mk("http", 2 if q else 20, s + 4, "default", lane="msan", mode="templates")
     res = run_cases(cases)
     return report("C13", "exploration", res,
                   "valid upgrade templates (header order/case/extra headers/several protocol tokens/target suffix) must be answered 101 with the right digest and "
@@ -398,6 +400,9 @@ def c12(tier):
     cases += mk("ws", 40 if q else 800, s + 3, "smallbuf", mode="echo", pings=60, big=0)
     cases += mk("ws", 200 if q else 4000, s + 4, "default", mode="transparency")
     cases += mk("hostile", 250 if q else 6000, s + 5, "default", n_ops=40)
+    for part in range(8):
+        cases.append(dict(kind="ws", seed=s * 7919 + 500 + part, config="default", lane="msan", params=dict(mode="violations", part=part, nparts=8)))
+    cases += mk("ws", 30 if q else 600, s + 6, "default", lane="msan", mode="echo", pings=40, big=0)
     res = run_cases(cases)
     return report("C12", "exploration", res,
                   "handshakes with shuffled header order / case / whitespace / extra headers / several protocol tokens / target suffixes and random keys (101, accept "
